@@ -14,8 +14,8 @@ theorem arrow_VC (ps : List Node) (b : Node) (at' : String) (sp : Span) (hs : sr
   obtain ⟨ps'', body'', rfl, hps'', hbody⟩ := hbr.arrow_inv
   obtain ⟨Xs, Δ1, e1, s1, w1⟩ := eraseL_KL (VC.srcL lo hi ps hps) ps'' hps'' σ
   have hret : ∀ σ', erase σ' (returnStmt b) = (returnStmt b, σ') := fun σ' => erase_src _ (srcOk_returnStmt hb) σ'
-  have hli : injectedLetIndex [returnStmt b] = none :=
-    injectedLetIndex_src _ (by intro k hk; simp only [List.mem_singleton] at hk; subst hk; exact srcOk_returnStmt hb)
+  have hli : injectedLetAt Span.dummy [returnStmt b] = none :=
+    injectedLetAt_src _ _ (by intro k hk; simp only [List.mem_singleton] at hk; subst hk; exact srcOk_returnStmt hb)
   -- the erased body is `{ return e' }` without positions, with `e'` the source body up to positions
   have hbd : ∃ e', erase (Δ1 ++ σ) body'' = (.block [.other "ReturnStatement" Span.dummy ["argument"] [e']] Span.dummy, Δ1 ++ σ) ∧
       strip e' = strip b := by
